@@ -1,6 +1,6 @@
 """C11 -- Galerkin entries are additive under splitting (exact additivity of
 the decomposition; DESIGN.md E4/E6)."""
-from .. import panels, hier, kernels
+from .. import panels, hier, kernels, causal, curverules
 from ..cas import run_tasks
 
 LEVEL = 'other'
@@ -29,6 +29,8 @@ def run(prog, report, tier):
     panels.check_exact_splitter(prog, report)
     panels.check_asserts(prog, report)
     hier.check_virtual_children(prog, report)
+    causal.run_prefilters(prog, report)
+    curverules.check_slabcount(prog, report)
     run_tasks(report, [(kernels.cert_K2_fourterm, (prog.repo, )),
                        (kernels.cert_fourterm_exact, (prog.repo, ))])
     report.not_decided.append(
